@@ -149,7 +149,7 @@ struct World {
 }
 
 fn world(kmax: usize) -> World {
-    let tmp = tempfile::tempdir().unwrap();
+    let tmp = vcommon::scratch_dir();
     let devs: Vec<Dev> = (0..kmax as u8).map(|i| fx::device(3, i)).collect();
     let dids: Vec<Did> = devs.iter().map(fx::did).collect();
     let storage = fx::storage(tmp.path(), &devs[0]);
